@@ -3131,3 +3131,47 @@ def simplify_assignments(trees: Dict[str, ast.Module]) -> int:
                     block[:] = out
         ast.fix_missing_locations(tree)
     return n
+
+
+# --------------------------------------------------------------------------------------------- defaults spelled in the body
+def fold_none_defaults(trees: Dict[str, ast.Module]) -> int:
+    """`def f(p=None): [docstring]; if p is None: p = <immutable literal>` is `def f(p=<literal>)`: the default is spelled in the body
+    instead of the signature (the leading statements of the function only; literals of numbers, strings, None, booleans and tuples of them)."""
+    def lit(e) -> bool:
+        if isinstance(e, ast.Constant):
+            return True
+        if isinstance(e, ast.Tuple):
+            return all(lit(x) for x in e.elts)
+        if isinstance(e, ast.UnaryOp) and isinstance(e.op, ast.USub):
+            return lit(e.operand)
+        return False
+    n = 0
+    for tree in trees.values():
+        for fn in [x for x in ast.walk(tree) if isinstance(x, (ast.FunctionDef, ast.AsyncFunctionDef))]:
+            a = fn.args
+            pos = a.posonlyargs + a.args
+            dflt = {p.arg: (a.defaults, i - (len(pos) - len(a.defaults))) for i, p in enumerate(pos) if i >= len(pos) - len(a.defaults)}
+            dflt.update({p.arg: (a.kw_defaults, i) for i, p in enumerate(a.kwonlyargs) if a.kw_defaults[i] is not None})
+            i0 = 1 if fn.body and isinstance(fn.body[0], ast.Expr) and isinstance(fn.body[0].value, ast.Constant) and isinstance(fn.body[0].value.value, str) else 0
+            i = i0
+            while i < len(fn.body):
+                st = fn.body[i]
+                if not (isinstance(st, ast.If) and not st.orelse and len(st.body) == 1 and isinstance(st.test, ast.Compare) and len(st.test.ops) == 1
+                        and isinstance(st.test.ops[0], ast.Is) and isinstance(st.test.left, ast.Name) and isinstance(st.test.comparators[0], ast.Constant)
+                        and st.test.comparators[0].value is None):
+                    break
+                p = st.test.left.id
+                b = st.body[0]
+                if not (p in dflt and isinstance(b, ast.Assign) and len(b.targets) == 1 and isinstance(b.targets[0], ast.Name) and b.targets[0].id == p and lit(b.value)
+                        and not (isinstance(b.value, ast.Constant) and b.value.value is None)):
+                    break
+                lst, k = dflt[p]
+                if not (isinstance(lst[k], ast.Constant) and lst[k].value is None):
+                    break
+                lst[k] = b.value
+                fn.body.pop(i)
+                n += 1
+            if not fn.body:
+                fn.body.append(ast.Pass())
+            ast.fix_missing_locations(fn)
+    return n
